@@ -62,6 +62,16 @@ func c22Scenarios(thorough bool) []*schedScenario {
 		// owner releases a non-empty block's affinity (not "if empty") while another host wants a block
 		{Name: "release-nonempty-vs-claim", Cfg: one, Setup: []vOp{auto("n1", "h0")},
 			Threads: [][]vOp{{{Kind: "relaff", Host: "n1", CIDR: "10.0.0.0/30"}}, {auto("n2", "h2")}}},
+		// an ORPHANED block: it holds an address, its owner released the affinity unconditionally, so it
+		// lives on with no affinity at all; nobody may be confirmed as its owner without the block
+		// recording it. Two later claimants, a claimant racing an auto-assign, and a claimant racing
+		// the release itself.
+		{Name: "orphan-block-two-claimaffinity", Cfg: one, Setup: []vOp{auto("n1", "h0"), {Kind: "relaff", Host: "n1", CIDR: "10.0.0.0/30"}},
+			Threads: [][]vOp{{{Kind: "claimaff", Host: "n2", CIDR: "10.0.0.0/30"}}, {{Kind: "claimaff", Host: "n3", CIDR: "10.0.0.0/30"}}}},
+		{Name: "orphan-block-claimaffinity-vs-auto", Cfg: one, Setup: []vOp{auto("n1", "h0"), {Kind: "relaff", Host: "n1", CIDR: "10.0.0.0/30"}},
+			Threads: [][]vOp{{{Kind: "claimaff", Host: "n2", CIDR: "10.0.0.0/30"}}, {auto("n3", "h3")}}},
+		{Name: "release-nonempty-vs-claimaffinity", Cfg: one, Setup: []vOp{auto("n1", "h0")},
+			Threads: [][]vOp{{{Kind: "relaff", Host: "n1", CIDR: "10.0.0.0/30"}}, {{Kind: "claimaff", Host: "n2", CIDR: "10.0.0.0/30"}}}},
 		// (most expensive last: it inherits whatever wall budget the others left)
 		// two hosts whose search starts at the same block; the loser must move on to the other block
 		{Name: "claim-race-two-blocks", Cfg: two, Threads: [][]vOp{{auto(a, "h1")}, {auto(b, "h2")}}},
@@ -124,7 +134,10 @@ func c22Oracle(sw *schedWorld, x *sched.Exec, final bool) []sched.Fail {
 			k := fmt.Sprintf("%s|%s|%d", al.IP, al.Handle, al.Seq)
 			if !tr.seen[k] {
 				tr.seen[k] = true
-				if strict && al.Node != "" && cb.aff != "host:"+al.Node {
+				// allocations made by the set-up (seen in the initial state, before any thread step) were
+				// made under whatever affinity the block had then; clause (c) is about allocations that
+				// APPEAR during the explored execution
+				if strict && len(x.Trace()) > 0 && al.Node != "" && cb.aff != "host:"+al.Node {
 					bad("allocation-from-unowned-block", fmt.Sprintf("strict affinity: %s was allocated for host %s from block %s whose recorded affinity is %q", al.IP, al.Node, vb.CIDR, cb.aff))
 				}
 			}
